@@ -113,7 +113,10 @@ def transformed(raw, sc, plain):
     """Validation with a variable transform in the context: from the raw dictionary, from the dumped form of the plain
     validation, and (twice) from sections the caller has validated beforehand as objects of their own."""
     V = sc["V"]
-    ctx = OptModelTransforms(variables=VariableScaler(np.array([2.0, 0.5, 4.0][:V]), np.array([1.0, 2.0, 3.0][:V])))
+    from ..transforms_util import ConstraintScaler
+    nnl = {"none": 0, "scalar": 1, "vector": 2, "crossed": 2}[sc["nl"]]
+    ctx = OptModelTransforms(variables=VariableScaler(np.array([2.0, 0.5, 4.0][:V]), np.array([1.0, 2.0, 3.0][:V])),
+                             nonlinear_constraints=ConstraintScaler([2.0, 4.0][:nnl]) if nnl else None)
     out = dict(NOTDONE, done=True)
     first = None
     try:
